@@ -192,6 +192,8 @@ def run(tier, seed):
     u3 = rng.uniform(3.0, 40.0)
     # the last two scales are nearly equal (3e-6 apart): a result cached "for the same cell" with a tolerance would be reused
     us = [1.0, rng.uniform(0.3, 3.0), u3, u3 * (1 + 3e-6)]
+    # extreme but legitimate sizes: cell edges of a fraction of an Angstrom and of several hundred Angstrom
+    us_extreme = [rng.uniform(0.005, 0.02), rng.uniform(5e3, 3e4)]
     if tier == "thorough" and len(recs) > 300000:
         recs = rng.sample(recs, 300000)
     # nearly orthogonal cells (angles within 0.003 degree of 90, not equal to it): metric entries of 1e5 do not fit TLC's integers;
@@ -213,7 +215,7 @@ def run(tier, seed):
     for x in recs:
         if tuple(x["G"]) in intcells:
             x["intcell"] = intcells[tuple(x["G"])]
-    res = common.pmap(worker, [(x, us) for x in recs])
+    res = common.pmap(worker, [(x, us if k % 7 else us + us_extreme) for k, x in enumerate(recs)])
     ncalls = 0
     metrics = set()
     for x, (n, out) in zip(recs, res):
